@@ -24,7 +24,7 @@ theorem newStep_frame (h : Heap) (hi : Inv h) (r : Nat) (hr : r < h.size) :
   intro j hj hlt
   have hje : j ≠ h.size := by omega
   have : (newLoop 1 h r).nx j = h.newRing.1.nx j := by
-    simp only [newLoop, e1, nx_setNext, nx_setPrev, size_setNext, size_setPrev]
+    simp only [newLoop_zero, newLoop_succ', e1, nx_setNext, nx_setPrev, size_setNext, size_setPrev]
     simp [hj, hje]
   rw [this]; exact (f1 j hlt).1
 
@@ -39,7 +39,7 @@ theorem newLoop_spec : ∀ (k : Nat) (h : Heap) (r : Nat) (as : List Nat), Inv h
   induction k with
   | zero =>
     intro h r as hi hc
-    exact ⟨[], rfl, by simpa [newLoop] using hc, hi, rfl, by intro x; simp, fun _ _ _ => rfl, by simp [newLoop]⟩
+    exact ⟨[], rfl, by simpa [newLoop_zero, newLoop_succ'] using hc, hi, rfl, by intro x; simp, fun _ _ _ => rfl, by simp [newLoop_zero]⟩
   | succ k ih =>
     intro h r as hi hc
     have hr : r < h.size := hc.bound r (by simp)
@@ -82,7 +82,7 @@ theorem new_alloc (h : Heap) (hi : Inv h) (n : Int) (hn : 0 < n) :
   obtain ⟨mid, ml, c1, i2, s2, m2, f2, v2⟩ := newLoop_spec (n.toNat - 1) h.newRing.1 h.size [] i1 c0
   have hnew : new h n = (newLoop (n.toNat - 1) h.newRing.1 h.size, some h.size) := by
     have : ¬ n ≤ 0 := by omega
-    simp only [new, this, if_false, e1]
+    simp only [new_def, this, if_false, e1]
   simp only [List.append_nil] at c1
   have hv : h.newRing.1.vals = h.vals ++ [0] := rfl
   have hvals : (newLoop (n.toNat - 1) h.newRing.1 h.size).vals = h.vals ++ List.replicate n.toNat 0 := by
@@ -269,7 +269,7 @@ theorem at_sim {s : St} {c : Cycles.C} {ρ : Nat → Nat} (hs : Sim s c ρ) (r :
     (hr : ∀ q, r = some q → q < s.h.size) (n : Int) :
     Cycles.step.at? c (r.map ρ) n = (at_ s.h r n).map ρ := by
   cases r with
-  | none => simp [Cycles.step.at?, at_]
+  | none => simp [Cycles.step.at?, at_none]
   | some q =>
     obtain ⟨l, hc⟩ := cyc_exists s.h hs.rinv.inv q (hr q rfl)
     have hcy := cycleOf_eq hs q l hc
@@ -364,7 +364,7 @@ theorem sim_pop {s : St} {c : Cycles.C} {ρ : Nat → Nat} (hs : Sim s c ρ) (d 
   cases hr : s.reg r with
   | none =>
     rw [hr] at hreg
-    simp only [step, Cycles.step, hr, hreg, Option.map_none, pop]
+    simp only [step, Cycles.step, hr, hreg, Option.map_none, pop_none]
     exact ⟨sim_setReg hs d none (by simp), trivial⟩
   | some q =>
     rw [hr] at hreg
@@ -436,18 +436,18 @@ theorem sim_join {s : St} {c : Cycles.C} {ρ : Nat → Nat} (hs : Sim s c ρ) (d
     cases ht : s.reg t with
     | none =>
       rw [ht] at hregt
-      simp only [step, Cycles.step, hr, ht, hregr, hregt, Option.map_none, join]
+      simp only [step, Cycles.step, hr, ht, hregr, hregt, Option.map_none, join_nn]
       exact ⟨sim_setReg hs d none (by simp), trivial⟩
     | some b =>
       rw [ht] at hregt
-      simp only [step, Cycles.step, hr, ht, hregr, hregt, Option.map_none, Option.map_some, join]
+      simp only [step, Cycles.step, hr, ht, hregr, hregt, Option.map_none, Option.map_some, join_ns]
       exact ⟨hs, trivial⟩
   | some a =>
     rw [hr] at hregr
     cases ht : s.reg t with
     | none =>
       rw [ht] at hregt
-      simp only [step, Cycles.step, hr, ht, hregr, hregt, Option.map_none, Option.map_some, join]
+      simp only [step, Cycles.step, hr, ht, hregr, hregt, Option.map_none, Option.map_some, join_sn]
       exact ⟨hs, trivial⟩
     | some b =>
       rw [ht] at hregt
@@ -763,7 +763,7 @@ theorem step_sim {s : St} {c : Cycles.C} {ρ : Nat → Nat} (hs : Sim s c ρ) (o
   | of d vs =>
     cases vs with
     | nil =>
-      have h1 : of s.h [] = (s.h, none) := by simp [of, new]
+      have h1 : of s.h [] = (s.h, none) := by simp [of, new_def]
       have h2 : c.fresh [] = (c, none) := by simp [Cycles.C.fresh]
       simp only [step, Cycles.step, h1, h2]
       exact ⟨ρ, sim_setReg hs d none (by simp), trivial⟩
@@ -777,7 +777,7 @@ theorem step_sim {s : St} {c : Cycles.C} {ρ : Nat → Nat} (hs : Sim s c ρ) (o
       exact this
   | new d n =>
     by_cases hn : n ≤ 0
-    · have h1 : new s.h n = (s.h, none) := by simp [new, hn]
+    · have h1 : new s.h n = (s.h, none) := by simp [new_def, hn]
       have h0 : n.toNat = 0 := by omega
       have h2 : c.fresh (List.replicate n.toNat 0) = (c, none) := by simp [Cycles.C.fresh, h0]
       simp only [step, Cycles.step, h1, h2]
